@@ -1,7 +1,7 @@
 ----------------------------- MODULE JudgeAdaptive -----------------------------
 (* C18: observations of the real slot machine, variation criterion, progress estimate and adaptive selector (act) for TLC-generated
    cases (case), judged against Adaptive.tla. *)
-EXTENDS Naturals, Integers, Sequences, FiniteSets, TLC, Json, IOUtils
+EXTENDS MathUtil, Json, IOUtils
 Recs == ndJsonDeserialize(IOEnv.RECS)
 VARIABLE l
 E == Recs[l]
@@ -37,6 +37,24 @@ EstimateAsModel == IsEst => \A i \in 1..Len(E.act.estimates) :
    /\ E.act.estimates[i].fires = (g >= lim)
    /\ (g >= lim => E.act.estimates[i].estK = 1000)
    /\ (g < lim => Abs(E.act.estimates[i].estK * lim - 1000 * g) <= lim)
+\* target proximity: "distance < threshold" with the distance of MathUtil (16 D^2 is an integer on the generated magnitudes); an exact tie is not compared
+IsProx == E.kind = "proximity" /\ Alive
+ProximityAsDefined == IsProx => LET r == M_RelSq16(E.case.target, E.case.best) IN
+   /\ ~E.act.firedEmpty /\ E.act.inRange
+   /\ (r * E.case.td * E.case.td = 16 * E.case.tn * E.case.tn \/ E.act.firedBest = (r * E.case.td * E.case.td < 16 * E.case.tn * E.case.tn))
+\* composite: terminates with the first of its parts, estimates with the largest part; nothing to wait for = never, estimate 0
+IsComp == E.kind = "composite" /\ Alive
+CompLim == Min({ E.case.limits[i] : i \in 1..Len(E.case.limits) })
+CompositeAsModel == IsComp => \A i \in 1..Len(E.act.estimates) : LET g == E.case.gens[i] e == E.act.estimates[i] IN
+   /\ e.inRange
+   /\ IF E.case.limits = <<>> THEN ~e.fires /\ e.estK = 0
+      ELSE /\ e.fires = (g >= CompLim)
+           /\ (g >= CompLim => e.estK = 1000)
+           /\ (g < CompLim => Abs(e.estK * CompLim - 1000 * g) <= CompLim)
+IsMt == E.kind = "maxtime" /\ Alive
+MaxTimeEstimateSane == IsMt => /\ E.act.inRange /\ E.act.monotone
+                               /\ (E.act.waited => E.act.firedAfter /\ E.act.fullAfter)
+                               /\ (E.case.limitMs >= 3600000 => ~E.act.firedAtOnce /\ ~E.act.firedAfter /\ ~E.act.fullAfter)
 IsDyn == E.kind = "dyn" /\ Alive
 SelectorPicksConfigured == IsDyn => E.act.picksInRange /\ E.act.oneCallPerSearch /\ E.act.picks >= E.case.steps
 RewardsFinite == IsDyn => E.act.rewardsFinite /\ E.act.rewards >= E.case.steps
@@ -52,6 +70,9 @@ J_SlotSamplingWorks == Judge("SlotSamplingWorks", SlotSamplingWorks)
 J_MinVariationAsModel == Judge("MinVariationAsModel", MinVariationAsModel)
 J_EstimateInRange == Judge("EstimateInRange", EstimateInRange)
 J_EstimateAsModel == Judge("EstimateAsModel", EstimateAsModel)
+J_ProximityAsDefined == Judge("ProximityAsDefined", ProximityAsDefined)
+J_CompositeAsModel == Judge("CompositeAsModel", CompositeAsModel)
+J_MaxTimeEstimateSane == Judge("MaxTimeEstimateSane", MaxTimeEstimateSane)
 J_SelectorPicksConfigured == Judge("SelectorPicksConfigured", SelectorPicksConfigured)
 J_RewardsFinite == Judge("RewardsFinite", RewardsFinite)
 J_RewardsInRange == Judge("RewardsInRange", RewardsInRange)
